@@ -2,7 +2,27 @@
 
 SKETCH = dict(engine="sketch", scale_quick=1, scale_thorough=12, timeout_quick=600, timeout_thorough=3000)
 
+SEQ = dict(engine="seq", scale_quick=4, scale_thorough=20, timeout_quick=900, timeout_thorough=6000)
+
+SEQ_RULE = ("seq engine: 96 cases per unit of scale cycling through the 12 feature combinations (unbounded/MaximumSize/"
+            "MaximumWeight x expiry none|custom/creating/writing/accessing, refresh on in half of the cases) with random "
+            "InitialCapacity, 150-350 operations each over 3-6 keys with unique values, clock steps from 0 ns to 2^52 ns, "
+            "durations from 1 ns to MaxInt64, queued same-goroutine executor drained at random points; after every operation "
+            "the per-key entries, physical size and statistics are compared with the extracted concrete model and abstract map; "
+            "distinct_nontrivial = (number of operation kinds exercised) x (number of distinct distribution buckets)")
+SEQ_ASSUME = ["calculators depend on (key, value, current duration) only; creation durations are positive and independent of the current duration (cfg_ok)",
+              "clock values in [0, MaxInt64); the loader does not move the clock (now2 = now)",
+              "same-goroutine executor that runs a submitted task after the submitting operation returned",
+              "eviction choices are inputs: automatic removals are taken from the implementation's deletion events and checked for legality"]
+
 PROPS = {
+    "C01": dict(engines=[SEQ], rule=SEQ_RULE, assumptions=SEQ_ASSUME),
+    "C03": dict(engines=[SEQ], rule=SEQ_RULE + "; the evidence's model_replay_stats.on_expired_* count operations applied to an expired-but-unswept key",
+                assumptions=SEQ_ASSUME),
+    "C10": dict(engines=[SEQ], rule=SEQ_RULE, assumptions=SEQ_ASSUME),
+    "C11": dict(engines=[SEQ], rule=SEQ_RULE, assumptions=SEQ_ASSUME + ["in-flight / dedup behaviour of refresh is covered by C08/C09, not here"]),
+    "C12": dict(engines=[SEQ], rule=SEQ_RULE, assumptions=SEQ_ASSUME),
+    "C20": dict(engines=[SEQ], rule=SEQ_RULE, assumptions=SEQ_ASSUME + ["concurrent counting (striped adder) is not covered by this engine"]),
     "C18": dict(
         engines=[SKETCH],
         rule="sketch engine: per case one capacity from a boundary list (0..2^16+1), random/skewed key streams, "
